@@ -256,6 +256,11 @@ func (ex *Executor) lenOf(st *State, v Value) *Term {
 		if md != nil && md.Base == nil {
 			return IntLit(int64(len(liveEntries(ex, st, md))))
 		}
+		if md != nil && len(md.Upd) == 0 {
+			ln := App("slen", SInt, md.Base)
+			st.Fact(Ge(ln, IntLit(0)))
+			return ln
+		}
 	case *ArrayV:
 		return IntLit(int64(len(x.E)))
 	}
